@@ -31,7 +31,10 @@ class Gen:
         if k == 7: return f"len(f'{{{self.expr(depth + 1)}!r:>4}}')"
         if k == 8: return f"(({self.expr(depth + 1)} or 3) and {self.expr(depth + 1)})"
         if k == 9: return f"int(not {self.expr(depth + 1)})"
-        if k == 10: return f"max({self.expr(depth + 1)}, {self.expr(depth + 1)}, key=abs)"
+        if k == 10:
+            return r.choice([f"max({self.expr(depth + 1)}, {self.expr(depth + 1)}, key=abs)",
+                             f"sorted(({self.expr(depth + 1)} + i for i in range(3)), key=abs)[0]",
+                             f"max((i for i in range({r.randrange(3)})), default={self.expr(depth + 1)})"])
         if k == 11: return f"note({self.expr(depth + 1)})"
         if k == 12:
             n = self.fresh_name()
